@@ -38,7 +38,7 @@ pub fn impl_ebml_specification(original: &mut ItemEnum) -> Result<TokenStream> {
 
     let map: HashMap<_, _> = input.variants.iter().map(|var|(&var.ident, var)).collect();
     for origin in &input.variants {
-        if !matches!(origin.data_type_attr.0, TagDataType::Master) && origin.path_attr.is_some() {
+        if origin.path_attr.is_some() {
             validate_path(origin, &map)?;
         }
     }
